@@ -20,6 +20,10 @@
 #endif
 #endif
 
+#ifdef VH_GCOV
+void __gcov_dump(void);
+#endif
+
 #ifdef VH_ASAN
 void __asan_poison_memory_region(void const volatile *addr, size_t size);
 void __asan_unpoison_memory_region(void const volatile *addr, size_t size);
@@ -500,6 +504,9 @@ vh_unit(const char *gen, uint64_t idx, vh_unit_fn fn, void *arg)
         }
         alarm((unsigned)opt_unit_timeout);
         fn(idx, arg);
+#ifdef VH_GCOV
+        __gcov_dump();
+#endif
         _exit(0);
     }
     int st = 0;
